@@ -97,6 +97,11 @@ def gen_prog(r):
         cbs += gen_cbs(r, ids, excs, 0, True, cancel, ending)
         if count(cbs) >= 12:
             break
+    # the same callable registered twice (with something else in between) is two registrations
+    plain = [c for c in cbs if c["route"] in ("method", "shortcut") and c["kind"] in ("sync", "async")
+             and not c["adds"] and not c.get("inside_next")]
+    if plain and len(cbs) >= 2 and r.random() < 0.2 and cbs[-1] is not plain[0]:
+        cbs.append(dict(plain[0], twin=True))
     return {"root": r.random() < 0.5, "outer_exc": r.random() < 0.25, "ending": ending, "cbs": cbs}
 
 
@@ -225,12 +230,12 @@ def oracle(r):
     ids = [c["id"] for c in allc]
     byid = {c["id"]: c for c in allc}
     cancel = p["ending"]["k"] == "cancel"
-    for i in ids:
-        n = begun.count(i)
-        if n == 0:
-            bad.append(("C01:not-invoked", f"callback {i} was never invoked"))
-        elif n > 1:
-            bad.append(("C01:invoked-twice", f"callback {i} was invoked {n} times"))
+    for i in sorted(set(ids)):
+        n, want = begun.count(i), ids.count(i)       # one invocation per REGISTRATION
+        if n < want:
+            bad.append(("C01:not-invoked", f"callback {i} was registered {want} times and invoked {n} times"))
+        elif n > want:
+            bad.append(("C01:invoked-twice", f"callback {i} was registered {want} times and invoked {n} times"))
     exp = [c["id"] for c in expected_order(p["cbs"])]
     if sorted(begun) == sorted(exp) and begun != exp:
         bad.append(("C01:order", f"callbacks ran in order {begun}, reverse registration order is {exp}"))
